@@ -26,7 +26,7 @@ def PTOK (t : PT) : Prop := t.weight < 2 ^ 64 ∧ PTSize t
 theorem PTOK.child {ch : Nib → PT} (h : PTOK (.branch ch)) (i : Nib) : PTOK (ch i) :=
   ⟨Nat.lt_of_le_of_lt (PT.weight_child_le ch i) h.1, h.2 i⟩
 
-theorem PTOK.short {k : Bytes} {c : PT} (h : PTOK (.short k c)) : PTOK c := ⟨h.1, h.2.2⟩
+theorem PTOK.short {k : Bytes} {c : PT} (h : PTOK (.short k c)) : PTOK c := ⟨h.1, h.2.2.2⟩
 
 theorem isVB_isNone {t : PT} (h : t.isVB) : t.isNone = false := by
   cases t <;> simp [PT.isVB, PT.isNone] at h ⊢
@@ -534,6 +534,10 @@ theorem rep_delete_aux (hlen : ∀ x, (H x).length = 32) :
     | nil => left; simp [delete, PT.delete]
     | empty => left; simp [delete, PT.delete]
     | value h vv vw d hcl =>
+      have hkn : key = [] := by
+        simp only [Uniform] at hu
+        exact List.eq_nil_of_length_eq_zero (hk.trans hu)
+      subst hkn
       right
       refine ⟨rfl, rfl, by simp [delete], trivial, .none, by simp [PT.delete], Rep.nil, ?_⟩
       simp [delete, WN.weight]
@@ -891,7 +895,7 @@ theorem rep_delete_needs_noEmp (s : Store) :
   have hd : delete H true s 4 (.routing [] ch 2 true false) [2] =
       { node := .routing [] (upd ch 2 .nil) 1 true false, change := 1, td := [[]] } := by
     have e0 : ch 2 = .value [] [2] 1 true := by simp [ch, upd]
-    simp only [delete, e0, WN.isNil, Bool.not_true, Bool.false_eq_true, if_false, hsole]
+    simp only [delete, e0, WN.isNil, Bool.not_true, Bool.false_eq_true, if_false, hsole, ne_eq, not_true_eq_false]
   have hdP : (PT.branch f).delete [2] = some (.short [nb 1] (.value [1] 1)) := by
     have e0 : f 2 = .value [2] 1 := by simp [f, PT.updP]
     have e1 : PT.updP f 2 .none 1 = .value [1] 1 := by simp [f, PT.updP]
